@@ -54,14 +54,14 @@ impl FromStr for GameState {
             .collect();
         let regex = regex::Regex::new(r"^\s*(\d+)([gswb])").unwrap();
 
-        let (move_number, p1_turn_to_move) = regex
-            .captures(s.split('|').find(|_| true).unwrap())
-            .map_or((2, true), |c| {
-                (
-                    c.get(1).unwrap().as_str().parse().unwrap(),
+        let (move_number, p1_turn_to_move) =
+            match regex.captures(s.split('|').find(|_| true).unwrap()) {
+                Some(c) => (
+                    c.get(1).unwrap().as_str().parse()?,
                     c.get(2).unwrap().as_str() != "s" && c.get(2).unwrap().as_str() != "b",
-                )
-            });
+                ),
+                None => (2, true),
+            };
 
         let mut p1_pieces = 0;
         let mut elephants = 0;
